@@ -7,6 +7,8 @@ from ..scen_go import go_chain
 
 def run(ctx):
     limiter(ctx, {'step'})
+    from ..scen_parser import reader_delivery
+    reader_delivery(ctx)       # bytes are pulled one at a time: a value is seen as soon as its last byte (and one look-ahead byte) has arrived
     stage_steps(ctx, want=('break',))
     read_input(ctx, ['read.break_stops_reading'])
     go_chain(ctx, want=('go.chain',))        # the limiter is in the chain whenever --take is given (T = 0 included)
